@@ -64,9 +64,44 @@ pub fn named_arg(it: &J) -> NamedArg {
     let mut n = n.expect("named item without any name");
     let h = s(it, "help");
     if !h.is_empty() {
-        n = n.help(leak(&dstr(h)));
+        n = n.help(help_doc(it));
     }
     n
+}
+
+/// the help text of an item as a `Doc`: one text fragment, or several when the definition asks
+/// for cuts (`help_cuts`: character offsets) - fragments of alternating styles, the concatenation
+/// is the same text
+pub fn help_doc(it: &J) -> bpaf::Doc {
+    let text = dstr(s(it, "help"));
+    let mut doc = bpaf::Doc::default();
+    let cuts: Vec<usize> = it
+        .get("help_cuts")
+        .and_then(J::as_array)
+        .map(|a| a.iter().filter_map(J::as_u64).map(|x| x as usize).collect())
+        .unwrap_or_default();
+    if cuts.is_empty() {
+        doc.text(&text);
+        return doc;
+    }
+    let chars: Vec<char> = text.chars().collect();
+    let mut from = 0;
+    let mut k = 0;
+    for c in cuts.into_iter().chain(std::iter::once(chars.len())) {
+        let c = c.min(chars.len());
+        if c > from {
+            // neighbouring fragments of one style are merged by bpaf: alternate the styles
+            let frag = chars[from..c].iter().collect::<String>();
+            match k % 3 {
+                0 => doc.text(&frag),
+                1 => doc.literal(&frag),
+                _ => doc.emphasis(&frag),
+            }
+            k += 1;
+            from = c;
+        }
+    }
+    doc
 }
 
 pub const GUARD_BAD: &str = "2";
@@ -103,6 +138,20 @@ fn fallback_val(it: &J) -> Val {
         "int" => Val::Int(FALLBACK_INT),
         "none" | "" if s(it, "kind") == "reqflag" => Val::Unit,
         _ => Val::Bytes(FALLBACK_STR.as_bytes().to_vec()),
+    }
+}
+
+/// the value a generated group's `dflt()` gives to one of its fields (mirrors py/gen_derive.py)
+fn group_default(f: &J) -> Val {
+    match (s(f, "kind"), s(f, "arity")) {
+        ("switch", _) => Val::Bool(false),
+        ("reqflag", _) => Val::Unit,
+        (_, "opt") => Val::Nothing,
+        (_, "many") => Val::List(vec![]),
+        _ => match s(f, "vt") {
+            "int" => Val::Int(7),
+            _ => Val::Bytes(b"d".to_vec()),
+        },
     }
 }
 
@@ -161,6 +210,14 @@ fn wrap(mut p: P, it: &J) -> P {
                 guard_msg(id),
             )
             .boxed(),
+        // a group with a header, a default value and the default shown in help (derive: doc comment +
+        // `fallback(..)` + `display_fallback` on a nested type): the header is attached first
+        "fallback_group" => {
+            let gh = s(it, "group_help");
+            let p = if gh.is_empty() { p } else { p.group_help(leak(&dstr(gh))).boxed() };
+            let dv = Val::Tuple(arr(it, "fields").iter().map(group_default).collect());
+            p.fallback(dv).display_fallback().boxed()
+        }
         "fallback_many" => p
             .many()
             .map(Val::List)
@@ -169,7 +226,7 @@ fn wrap(mut p: P, it: &J) -> P {
         other => panic!("unknown arity {}", other),
     };
     let gh = s(it, "group_help");
-    if !gh.is_empty() {
+    if !gh.is_empty() && s(it, "arity") != "fallback_group" {
         p = p.group_help(leak(&dstr(gh))).boxed();
     }
     if b(it, "hide_usage") {
@@ -306,7 +363,11 @@ pub fn build_node(it: &J) -> P {
     let kind = s(it, "kind");
     let base: P = match kind {
         "switch" => {
-            let p: P = named_arg(it).switch().map(Val::Bool).boxed();
+            let mut p: P = named_arg(it).switch().map(Val::Bool).boxed();
+            // a validation on a switch: it may not be switched on (from the line or from its variable)
+            if b(it, "gflag") {
+                p = p.guard(|v| !matches!(v, Val::Bool(true)), guard_msg(s(it, "id"))).boxed();
+            }
             return wrap_hidden_only(p, it);
         }
         "flag" => {
@@ -358,7 +419,7 @@ pub fn build_node(it: &J) -> P {
                 ($t:ty, $f:expr) => {{
                     let mut p = positional::<$t>(mv);
                     if !h.is_empty() {
-                        p = p.help(leak(&dstr(h)));
+                        p = p.help(help_doc(it));
                     }
                     let p = match s(it, "strict") {
                         "strict" => p.strict(),
